@@ -358,21 +358,15 @@ class YP(object):
         else:
             return
 
-        try:
-            remaining_clauses = self._find_predicates(name, len(args))[:]
-        except YPException:
-            return
-        i = 0
-        while i < len(remaining_clauses):
-            clause = remaining_clauses[i]
-            match = False
+        # logical update view: walk the clauses as they are now, but remove from (and
+        # check presence in) the list as it is at the time of each removal.
+        for clause in self._find_clauses(name, len(args)):
             for cut in clause.match(args):
-                match = True
-                del remaining_clauses[i]
-                self._update_predicate(self.atom(name), len(args), remaining_clauses)
-                yield False
-            if not match:
-                i += 1
+                current = self._find_clauses(name, len(args))
+                if any(c is clause for c in current):
+                    self._update_predicate(self.atom(name), len(args),
+                                           [c for c in current if c is not clause])
+                    yield False
 
     def retractall(self, term):
         '''retractall(Term) removes all dynamic facts matching Term, without backtracking over identical clauses.'''
@@ -385,12 +379,8 @@ class YP(object):
             args = []
         else:
             return YPFail()
-        try:
-            clauses = self._find_predicates(name, len(args))
-        except YPException:
-            return YPSuccess()
         remaining_clauses = []
-        for clause in clauses:
+        for clause in self._find_clauses(name, len(args)):
             match = False
             for cut in clause.match(args):
                     match = True
@@ -508,22 +498,23 @@ class YP(object):
         except KeyError:
             raise YPException('Unknown predicate: %s/%d' % (name, arity))
 
+    def _find_clauses(self, name, arity):
+        '''the current clause list of name/arity (empty if there is none). The list
+        objects in the store are never modified in place.'''
+        return self._predicates_store.get((name, arity), [])
+
     def _update_predicate(self, name, arity, clauses):
         self._predicates_store[(name.name(), arity)] = clauses
 
     def assert_fact(self, name, values, append=True):
         '''insert name(values) in the set of facts. If append is False, insert the
         fact at the beginning, otherwise at the end.'''
-        try:
-            clauses = self._find_predicates(name.name(), len(values))
-            # indexedanswers
-        except YPException as e:
-            clauses = []
+        clauses = self._find_clauses(name.name(), len(values))
         answer = Answer([get_value(v) for v in values])
         if append:
-            clauses.append(answer)
+            clauses = clauses + [answer]
         else:
-            clauses.insert(0, answer)
+            clauses = [answer] + clauses
         self._update_predicate(name, len(values), clauses)
 
     def query(self, name, args):
